@@ -3,7 +3,7 @@
 //! Oracle: oracle::psl (publicsuffix.org algorithm over the .dat file parsed at run time).
 //! Workload: every rule of the list, extended/shortened/relabelled, plus arbitrary strings.
 
-use public_suffix::{EffectiveTLDProvider, DEFAULT_PROVIDER};
+use public_suffix::{EffectiveTLDProvider, ListProvider, PublicSuffixList, Table, DEFAULT_PROVIDER};
 use serde_json::json;
 
 use crate::{
@@ -13,6 +13,52 @@ use crate::{
     worker::catch,
     Args,
 };
+
+/// The compiled table type behind the public alias `PublicSuffixList = ListProvider<TLDList>`.
+trait Inner {
+    type T: Table;
+}
+impl<T: Table> Inner for ListProvider<T> {
+    type T = T;
+}
+type Tbl = <PublicSuffixList as Inner>::T;
+
+/// Every rule the compiled table itself encodes (walk of its node / children arrays), so that probes
+/// are also derived from what the table *contains* - a phantom sub-tree or a dropped node is then
+/// probed even when no rule of the list points there.
+fn table_rules() -> Vec<(String, u32, bool)> {
+    // returns (dotted path, node type, wildcard flag of the node's children)
+    fn label(i: u32) -> &'static str {
+        let mut x = Tbl::NODES[i as usize];
+        let length = (x & ((1 << Tbl::NODES_BITS_TEXT_LENGTH) - 1)) as usize;
+        x >>= Tbl::NODES_BITS_TEXT_LENGTH;
+        let offset = (x & ((1 << Tbl::NODES_BITS_TEXT_OFFSET) - 1)) as usize;
+        &Tbl::TEXT[offset..][..length]
+    }
+    fn children(i: u32) -> (u32, u32, u32, bool) {
+        let mut u = Tbl::NODES[i as usize] >> (Tbl::NODES_BITS_TEXT_OFFSET + Tbl::NODES_BITS_TEXT_LENGTH);
+        u >>= Tbl::NODES_BITS_ICANN;
+        let c = Tbl::CHILDREN.get((u & ((1 << Tbl::NODES_BITS_CHILDREN) - 1)) as usize).copied().unwrap_or(0);
+        let lo = c & ((1 << Tbl::CHILDREN_BITS_LO) - 1);
+        let hi = (c >> Tbl::CHILDREN_BITS_LO) & ((1 << Tbl::CHILDREN_BITS_HI) - 1);
+        let ty = (c >> (Tbl::CHILDREN_BITS_LO + Tbl::CHILDREN_BITS_HI)) & ((1 << Tbl::CHILDREN_BITS_NODE_TYPE) - 1);
+        let wc = (c >> (Tbl::CHILDREN_BITS_LO + Tbl::CHILDREN_BITS_HI + Tbl::CHILDREN_BITS_NODE_TYPE)) & ((1 << Tbl::CHILDREN_BITS_WILDCARD) - 1) != 0;
+        (lo, hi, ty, wc)
+    }
+    let mut out = Vec::new();
+    let mut stack: Vec<(u32, String, usize)> = (0..Tbl::NUM_TLD).map(|i| (i, label(i).to_string(), 1)).collect();
+    let n_nodes = Tbl::NODES.len() as u32;
+    while let Some((i, path, depth)) = stack.pop() {
+        let (lo, hi, ty, wc) = children(i);
+        out.push((path.clone(), ty, wc));
+        if depth < 8 && lo <= hi && hi <= n_nodes {
+            for c in lo..hi {
+                stack.push((c, format!("{}.{}", label(c), path), depth + 1));
+            }
+        }
+    }
+    out
+}
 
 fn labels(s: &str) -> usize {
     if s.is_empty() {
@@ -255,6 +301,22 @@ pub fn run(args: &Args) -> Report {
                 }
             }
         }
+    }
+    // probes derived from the table's own contents
+    match catch(table_rules) {
+        Ok(rules) => {
+            ctx.rep.obs("rules_encoded_in_table", json!(rules.len()));
+            for (path, _ty, wc) in &rules {
+                check(&mut ctx, path, true, "table-node");
+                check(&mut ctx, &format!("a.{path}"), true, "table-node-plus1");
+                check(&mut ctx, &format!("b.a.{path}"), true, "table-node-plus2");
+                if *wc {
+                    check(&mut ctx, &format!("zq9.{path}"), true, "table-wildcard-instance");
+                    check(&mut ctx, &format!("a.zq9.{path}"), true, "table-wildcard-instance-plus1");
+                }
+            }
+        }
+        Err((sig, d)) => ctx.rep.violate(&format!("table walk {sig}"), d, json!({"kind": "table-walk"})),
     }
     let n_arbitrary = args.size(20_000, 300_000);
     arbitrary(&mut ctx, &mut rng, n_arbitrary, args.thorough());
